@@ -182,6 +182,12 @@ def d2(ck: Check) -> None:
     ck.ob("D2", fm, f.node, not probs, "; ".join(probs) if probs else "one control entry per succession step, in order", key="result list")
 
 
+# calls that can add nodes to a diagram (the public expansion entry points and the primitives below them)
+GROWERS = ("expand_to_target", "expand_bfs", "expand_dfs", "expand_minimal_spaces", "expand_attractor_seeds", "expand_block",
+           "expand_scc", "expand_source_SCCs", "expand_source_blocks", "build", "skip_to_minimal", "skip_remaining",
+           "_expand_one_node", "_ensure_node")
+
+
 def d3(ck: Check) -> None:
     fm = ck.prog.fm(CTRL, "successions_to_target")
     f = fm.f
@@ -242,9 +248,19 @@ def d3(ck: Check) -> None:
                     c_, at_ = sd2[1], sd2[0]
             if isinstance(c_, ast.Call) and callee_name(c_) == "minimal_trap_spaces" and isinstance(c_.func, ast.Attribute) \
                     and text(c_.func.value) == sdp and not c_.args:
+                # the list is that of the diagram as it is classified: nothing grows the diagram between the two
+                for x_ in own_walk(f.node):
+                    if isinstance(x_, ast.Call) and callee_name(x_) in GROWERS:
+                        xn = fm.cfgn(x_)
+                        if at_ is not cn and xn.id in fm.cfg.reach_avoiding(at_, []) and cn.id in fm.cfg.reach_avoiding(xn, []):
+                            stale_min.append(f"line {at_.lineno}: the minimal trap spaces are listed before `{callee_name(x_)}` (line "
+                                             f"{x_.lineno}) grows the diagram: nodes that become minimal by the expansion are not in "
+                                             f"the list, and a minimal trap space outside the target is not treated as forbidden")
+                            return None
                 return logic.B("MINIMAL")
         return None
 
+    stale_min: list[str] = []
     pc = fm.pc(cn, atomize=atomize)
     # the target that is classified against is the caller's target
     tgt_rebound = [d_ for d_ in fm.cfg.reaching_defs(tgt, cn) if d_.kind != "entry"]
@@ -259,6 +275,7 @@ def d3(ck: Check) -> None:
         probs.append(f"a node is classified as forbidden under `{logic.show(pc)[:200]}`; expected exactly: it does not intersect the "
                      f"target, or it is a minimal trap space that is not inside the target (argument order of is_subspace/intersect "
                      f"matters: space first, target second)")
+    probs += sorted(set(stale_min))
     if tgt_rebound:
         probs.append(f"line {tgt_rebound[0].lineno}: the target `{tgt}` is re-bound before the nodes are classified: a node whose space "
                      f"disagrees with the caller's target on a dropped entry counts as consistent")
@@ -351,6 +368,22 @@ def d3(ck: Check) -> None:
             if not ups or (not sound and not pr):
                 pr.append(f"`{R}` never receives the nodes above the forbidden ones")
             out[R] = (n, pr)
+        # (e) one set for both: every forbidden node is added together with all its ancestors, next to each other
+        # under the classification (`HOT.add(s); HOT.update(ancestors(dag, s))`)
+        ad_stmt = f.stmt_of(ad)
+        sibs = f.parents.get(ad_stmt)
+        for fld in ("body", "orelse"):
+            lst = getattr(sibs, fld, None)
+            if isinstance(lst, list) and ad_stmt in lst:
+                for st_ in lst:
+                    c_ = st_.value if isinstance(st_, ast.Expr) else None
+                    if isinstance(c_, ast.Call) and isinstance(c_.func, ast.Attribute) and c_.func.attr == "update" \
+                            and text(c_.func.value) == HOT and len(c_.args) == 1 and isinstance(c_.args[0], ast.Call) \
+                            and (dotted(c_.args[0].func) or "").split(".")[-1] == "ancestors" \
+                            and [text(x) for x in c_.args[0].args] == [dag, s] \
+                            and not any(isinstance(z, (ast.If, ast.For, ast.While, ast.Try, ast.Break, ast.Continue, ast.Return))
+                                        for z in lst[min(lst.index(ad_stmt), lst.index(st_)):max(lst.index(ad_stmt), lst.index(st_)) + 1]):
+                        out[HOT] = (st_, [])
         return out
 
     def filtered_reach_sets():
@@ -425,6 +458,9 @@ def d3(ck: Check) -> None:
         e = fm.deref(e, at)
         while isinstance(e, ast.Call) and callee_name(e) == "bool" and len(e.args) == 1:
             e = e.args[0]
+        if isinstance(e, ast.UnaryOp) and isinstance(e.op, ast.Not) and isinstance(e.operand, ast.Compare) and len(e.operand.ops) == 1 \
+                and isinstance(e.operand.ops[0], ast.NotIn):
+            e = ast.Compare(e.operand.left, [ast.In()], e.operand.comparators)     # not (x not in R)
         if isinstance(e, ast.Compare) and len(e.ops) == 1 and isinstance(e.ops[0], (ast.Gt, ast.NotEq)) and text(e.comparators[0]) == "0" \
                 and isinstance(e.left, ast.Call) and callee_name(e.left) == "len" and e.left.args:
             e = e.left.args[0]
